@@ -385,6 +385,7 @@ def make_async_transport(env):
             self.env.t_connect(transport_timeout_s)
 
         async def close(self):
+            await self._gate()
             self.env.t_close()
 
         async def bulk_read(self, numbytes, transport_timeout_s):
